@@ -8,11 +8,11 @@ func init() {
 	const logs = "internal/storage/ledgerstore/logs.go"
 	addMutants(
 		Mutant{Property: "C06", Name: "run-acks-before-wait", File: ctxf,
-			Old: "\t<-done\n\tlogger := logging.FromContext(ctx)", New: "\tgo func() { <-done }()\n\tlogger := logging.FromContext(ctx)", Expect: "R06a:run:ack-after-persistence"},
+			Old: "\t<-done\n\tlogger := logging.FromContext(ctx)", New: "\tgo func() { <-done }()\n\tlogger := logging.FromContext(ctx)", Expect: "R06a:(*internal/engine/command.executionContext).run:handoff#1:propagated-or-waited"},
 		Mutant{Property: "C06", Name: "done-closed-at-handoff", File: ctxf,
 			Old: "\tchainedLog := e.commander.appendLog(allocateTXID, logBuilder, func() {\n\t\tclose(done)\n\t})", New: "\tchainedLog := e.commander.appendLog(allocateTXID, logBuilder, func() {})\n\tclose(done)", Expect: "R06b:"},
 		Mutant{Property: "C06", Name: "savemeta-bypasses-run", File: cmdr,
-			Old: "\tcommander.monitor.SavedMetadata(ctx, targetType, fmt.Sprint(targetID), m)", New: "\tcommander.monitor.SavedMetadata(ctx, targetType, fmt.Sprint(targetID), m)\n\t_, _, _ = execContext.AppendLog(ctx, ledger.NewSetMetadataOnAccountLog(ledger.Now(), \"audit\", m))", Expect: "R06a:(*internal/engine/command.Commander).SaveMeta:handoff-acknowledged-through-run"},
+			Old: "\tcommander.monitor.SavedMetadata(ctx, targetType, fmt.Sprint(targetID), m)", New: "\tcommander.monitor.SavedMetadata(ctx, targetType, fmt.Sprint(targetID), m)\n\t_, _, _ = execContext.AppendLog(ctx, ledger.NewSetMetadataOnAccountLog(ledger.Now(), \"audit\", m))", Expect: "R06a:(*internal/engine/command.Commander).SaveMeta:handoff#1:propagated-or-waited"},
 		Mutant{Property: "C06", Name: "worker-swallows-insert-error", File: jobs,
 			Old: "\t\t\t\t\tif err := r.runner(ctx, job); err != nil {\n\t\t\t\t\t\tpanic(err)\n\t\t\t\t\t}", New: "\t\t\t\t\tif err := r.runner(ctx, job); err != nil {\n\t\t\t\t\t\tlogger.Errorf(\"job failed: %s\", err)\n\t\t\t\t\t}", Expect: "R06c:"},
 		Mutant{Property: "C06", Name: "worker-error-returns", File: jobs,
